@@ -117,6 +117,19 @@ dispatch!(m, Mach, {
     }
 });
 
+// the type names of the x86 machines, taken from the tree under test through ppv-lite86's public aliases
+// (so the driver's implementation-selection oracle follows a rename of the underlying types)
+#[cfg(all(not(feature = "ppv_no_simd"), not(feature = "chacha_no_simd")))]
+fn machine_names() -> String {
+    use core::any::type_name as tn;
+    use ppv_lite86::x86_64 as x;
+    format!("{{\"sse2\":\"{}\",\"ssse3\":\"{}\",\"sse41\":\"{}\",\"avx\":\"{}\",\"avx2\":\"{}\"}}", tn::<x::SSE2>(), tn::<x::SSSE3>(), tn::<x::SSE41>(), tn::<x::AVX>(), tn::<x::AVX2>())
+}
+#[cfg(not(all(not(feature = "ppv_no_simd"), not(feature = "chacha_no_simd"))))]
+fn machine_names() -> String {
+    "null".to_string()
+}
+
 fn main() {
     let args: Vec<String> = std::env::args().collect();
     std::panic::set_hook(Box::new(|_| {}));
@@ -155,7 +168,7 @@ fn main() {
     let taken: Vec<usize> = vec![];
     let q = |v: &Vec<String>| format!("[{}]", v.iter().take(12).map(|s| format!("\"{}\"", s.replace('"', "'").replace('\\', "/"))).collect::<Vec<_>>().join(","));
     println!(
-        "{{\"cases\":{},\"fingerprint\":\"{:016x}\",\"n_mismatches\":{},\"n_panics\":{},\"mismatches\":{},\"panics\":{},\"forced\":{},\"taken\":{:?},\"machine\":\"{}\"}}",
-        o.cases, o.fp, o.mism.len(), o.panics.len(), q(&o.mism), q(&o.panics), forced, taken, dispatched_machine()
+        "{{\"cases\":{},\"fingerprint\":\"{:016x}\",\"n_mismatches\":{},\"n_panics\":{},\"mismatches\":{},\"panics\":{},\"forced\":{},\"taken\":{:?},\"machine\":\"{}\",\"machine_names\":{}}}",
+        o.cases, o.fp, o.mism.len(), o.panics.len(), q(&o.mism), q(&o.panics), forced, taken, dispatched_machine(), machine_names()
     );
 }
